@@ -502,6 +502,43 @@ class Mat2:
     def ravel(self):
         return [self.m[0][0], self.m[0][1], self.m[1][0], self.m[1][1]]
 
+    # element-wise arithmetic with a scalar; the augmented forms write into the array itself, as numpy's do
+    def _ew(self, f):
+        return Mat2([[f(v) for v in r] for r in self.m])
+
+    def _inplace(self, f):
+        for r in self.m:
+            r[:] = [f(v) for v in r]
+        return self
+
+    def __abs__(self):
+        return self._ew(abs)
+
+    def max(self):
+        return symx.m_max(*self.ravel())
+
+    def min(self):
+        return symx.m_min(*self.ravel())
+
+    def __truediv__(self, k):
+        return self._ew(lambda v: v / k)
+
+    def __mul__(self, k):
+        if isinstance(k, Mat2):
+            raise Unsupported("element-wise product of two matrices")
+        return self._ew(lambda v: v * k)
+
+    __rmul__ = __mul__
+
+    def __itruediv__(self, k):
+        return self._inplace(lambda v: v / k)
+
+    def __imul__(self, k):
+        return self._inplace(lambda v: v * k)
+
+    def copy(self):
+        return Mat2(self.m)
+
     def __getitem__(self, idx):
         if isinstance(idx, tuple) and len(idx) == 2:
             i, j = idx
